@@ -1,3 +1,74 @@
 import NdnVerif.Driver.Common
--- stub: replaced by the C17 model driver
-def main : IO Unit := IO.println "DONE lines=0 histories=0 diffs=0 specs=0 skipped=0"
+import NdnVerif.C17.Print
+open Ndn Ndn.Driver Ndn.C17
+
+/-- driver state: the model state, and — kept apart — what the specification side remembers of the
+    IMPLEMENTATION's own outputs (its previous table dump) -/
+structure DSt where
+  st : St := init false
+  lh : Bool := false
+  prev : Option Tables := none
+
+def crashFail (op got : String) : List SpecFail :=
+  if isCrash got || got.startsWith "HANG" then [⟨"live", (op.splitOn " ").head!, s!"the daemon died or hung: {got}"⟩] else []
+
+def stepC17 (s : DSt) (op : String) (got : String) : StepResult DSt :=
+  let f := op.splitOn " "
+  let gtoks := got.splitOn " "
+  match f with
+  | ["new", lh, _fib] =>
+    let lhb := lh == "lh=1"
+    let st := init lhb
+    { st := { st := st, lh := lhb, prev := parseTables gtoks }, expected := some ("ok " ++ tablesText (tablesOf st)),
+      spec := crashFail op got, cov := [if lhb then "new-localhop-on" else "new-localhop-off"] }
+  | "cmd" :: _ =>
+    match parseCmd f with
+    | none => { st := s, expected := some "bad-op" }
+    | some c =>
+      let gotTables := parseTables gtoks
+      let d := (tokenVal gtoks "d").bind (·.toNat?)
+      let routed := d.getD 0 > 0
+      let ext : Ext := match gotTables with
+        | some t => ⟨t.fib, t.rib⟩
+        | none => ⟨s.st.fib, s.st.rib⟩
+      let guard := fwGuard s.st c.face c.name
+      let (st', r) := sysStep s.st ext routed c.face c.name c.params
+      let dTxt := if guard then toString (d.getD 0) else "0"
+      let expected := s!"d={dTxt} r={respText r} {tablesText (tablesOf st')}"
+      -- specification on the implementation's own outputs
+      let spec : List SpecFail :=
+        crashFail op got ++
+        (match s.prev, gotTables, (tokenVal gtoks "r").bind parseOutcome with
+         | some before, some after, some out =>
+           let o : Obs := { lh := s.lh, face := c.face, name := c.name, params := c.params, routed := routed,
+                            before := before, out := out, after := after }
+           (check o).map fun cl => ⟨cl, c.key, s!"clause {cl} violated by the implementation: {op} => {got.take 300}"⟩
+         | _, _, _ => [])
+      let codeTag := match r with
+        | .none => "none" | .ctrl cde _ => toString cde | .dataset _ _ _ _ => "dataset" | .panic _ => "panic"
+      let pfxTag := if lhPrefix.isPrefixOf c.name then "lh" else if lpPrefix.isPrefixOf c.name then "lp" else "other"
+      { st := { s with st := st', prev := gotTables <|> s.prev }, expected := some expected, spec := spec,
+        cov := [s!"{c.key}:{codeTag}", s!"arrive:{pfxTag}:{if guard then "pass" else "scope-drop"}:{if routed then "routed" else "unrouted"}"],
+        nontrivial := (match r with | .ctrl 200 _ => true | .dataset _ _ _ _ => true | _ => false) }
+  | ["send", face, size] =>
+    match face.toNat?, size.toNat? with
+    | some fid, some sz =>
+      (match faceGet s.st.faces fid with
+       | none => { st := s, expected := some "noface", spec := crashFail op got, cov := ["send:noface"] }
+       | some fc =>
+         let out := sendOutcome fc.mtu true fc.localFields true false sz
+         let exp := match out with
+           | .panic => some "PANIC"
+           | _ => if got.startsWith "ok" then some got else some "ok"
+         let carried := tokenVal gtoks "carried"
+         let frames := (tokenVal gtoks "frames").bind (·.toNat?)
+         let spec := crashFail op got ++
+           (if got.startsWith "ok frames=" && (carried != some "1" || frames.getD 0 == 0) then
+              [⟨"usable", "send", s!"a packet of {sz} bytes could not be sent on face {fid} (mtu {fc.mtu}): {got}"⟩] else [])
+         { st := s, expected := exp, spec := spec,
+           cov := [match out with | .frames 1 => "send:whole" | .frames _ => "send:fragmented" | .dropped => "send:dropped" | .panic => "send:panic"] })
+    | _, _ => { st := s, expected := some "bad-op" }
+  | ["probe", _, _] => { st := s, expected := some "ok", spec := crashFail op got, cov := ["probe"] }
+  | _ => { st := s, expected := some "bad-op" }
+
+def main : IO Unit := Ndn.Driver.run ({} : DSt) stepC17
